@@ -54,6 +54,8 @@ impl Resource for Cell {
     Ok(CellReader { val: *cell_slot(st, self.0), consumed: false })
   }
   fn write<'r, RS: ResourceState<Self>>(&'r self, state: &'r mut RS) -> Result<CellWriter<'r>, CellError> {
+    // harnesses that expect a validation abort raise this flag: the writer must not even be opened before validation
+    assert!(!unsafe { FORBID_WRITER }, "WRITER-OPENED-BEFORE-VALIDATION");
     let st = state.get_or_set_default_mut::<CellState>();
     Ok(CellWriter { slot: cell_slot(st, self.0) })
   }
@@ -85,6 +87,7 @@ pub static mut LOG: [LogE; LOG_CAP] = [LogE { kind: 0, subject: 0, seen: 0, mode
 pub static mut LOG_N: usize = 0;
 /// Per-cell fault flags for `M_FAILING`.
 pub static mut FAULT: [bool; NCELL] = [false; NCELL];
+pub static mut FORBID_WRITER: bool = false;
 pub fn log_push(kind: u8, subject: u8, seen: u16, mode: u8) {
   unsafe {
     assert!(LOG_N < LOG_CAP, "KMODEL-CAPACITY: harness log");
@@ -301,4 +304,21 @@ pub fn ref_eval(id: usize, cells: &mut [Option<u8>; NCELL], depth: u8) -> u8 {
     pc += 1;
   }
   acc
+}
+
+/// `-Z stubbing` replacement for `Vec::<T, A>::into_boxed_slice`: same result, but built by typed element moves into an
+/// exactly-sized fresh allocation instead of `shrink_to_fit` (which goes through `realloc`/`memcpy`; after a `memcpy` CBMC
+/// no longer constant-folds reads from the copied bytes, so e.g. the discriminant of a collected enum looks symbolic).
+#[cfg(kani)]
+pub fn k_into_boxed_slice<T, A: ::std::alloc::Allocator>(v: ::std::vec::Vec<T, A>) -> ::std::boxed::Box<[T], A> {
+  let len = v.len();
+  let (src, _len, _cap, alloc) = v.into_raw_parts_with_allocator();
+  let layout = ::std::alloc::Layout::array::<T>(len).unwrap();
+  let dst: *mut T = if layout.size() == 0 { ::std::ptr::NonNull::<T>::dangling().as_ptr() } else {
+    match alloc.allocate(layout) { Ok(p) => p.as_ptr() as *mut T, Err(_) => ::std::alloc::handle_alloc_error(layout) }
+  };
+  let mut i = 0;
+  while i < len { unsafe { dst.add(i).write(src.add(i).read()); } i += 1; }
+  // the source buffer is leaked on purpose (freeing it would need the original capacity's layout; irrelevant to the claim)
+  unsafe { ::std::boxed::Box::from_raw_in(::std::ptr::slice_from_raw_parts_mut(dst, len), alloc) }
 }
